@@ -63,16 +63,18 @@ def distTtl (obs sig : Ttl) : Option Nat :=
   | _, _ => none
 
 /-- `WindowSize::distance_window_size(&self /*observed*/, other /*signature*/, mss /*observed*/)`.
-`a.checked_div(mss)` is `None` exactly for `mss = 0`; `*b as u16 == ratio`. -/
+`a.checked_div(mss)` / `a.checked_rem(b)` are `None` exactly for a zero divisor;
+`*b as u16 == ratio`. -/
 def distWindow (obs sig : WindowSize) (mss : Option Nat) : Option Nat :=
   match obs, sig with
   | .mss a, .mss b => eqLow (a == b)
   | .mtu a, .mtu b => eqLow (a == b)
   | .value a, .mss b =>
     match mss with
-    | some m => if m = 0 then some tcpLow else eqLow (b == a / m)
+    | some m => if m = 0 then some tcpLow else eqLow (b == a / m && a % m == 0)
     | none => some tcpLow
-  | .mod a, .mod b => eqLow (a == b)
+  | .mod a, .mod b => eqLow (a == b || (a != 0 && b != 0 && a % b == 0))
+  | .value a, .mod b => eqLow (b != 0 && a % b == 0)
   | .value a, .value b => eqLow (a == b)
   | _, .any => some tcpHigh
   | _, _ => none
@@ -123,7 +125,7 @@ def hdrErrors : List Header → List Header → Nat
   | os, [] => os.length
   | [], s :: ss => reqErr s + hdrErrors [] ss
   | o :: os, s :: ss =>
-    if o.name = s.name ∧ o.value = s.value then hdrErrors os ss
+    if o.name = s.name ∧ (s.value = none ∨ o.value = s.value) then hdrErrors os ss
     else if o.name = s.name then reqErr s + hdrErrors os ss
     else if s.optional then hdrErrors (o :: os) ss
     else 1 + hdrErrors (o :: os) ss
